@@ -110,6 +110,8 @@ type Case struct {
 	Observed string   `json:"observed,omitempty"`
 	Trace    []string `json:"trace,omitempty"`
 	LogTail  string   `json:"log_tail,omitempty"`
+	// raft files of a node that did not come back (wal-1/ and snap-1/, base64 by encoding/json), for the post-mortem
+	RaftFiles map[string][]byte `json:"raft_files,omitempty"`
 }
 
 var streamIDs = [3]string{"a", "b", "c"}
@@ -338,6 +340,7 @@ type outcome struct {
 	nontrivial   bool
 	trace        []string
 	logTail      string
+	raftFiles    map[string][]byte
 	counts       map[int]map[string]int // incarnation -> point hit counts
 	excludedKF   bool                   // matched only through the known-finding tolerance
 	wall         time.Duration
@@ -414,7 +417,26 @@ func runCase(c *Case, opt runOpts) (out outcome) {
 			}
 			out.logTail = nodeLogTail(d, n)
 			if strings.HasPrefix(out.violation, "needs manual repair") {
-				out.logTail = "---- read-only look at the node's raft directories ----\n" + diagnose(d) + out.logTail
+				head := ""
+				if b, err := os.ReadFile(d.logPath(d.inc)); err == nil {
+					if len(b) > 12000 {
+						b = b[:12000]
+					}
+					head = fmt.Sprintf("---- incarnation %d log HEAD ----\n%s\n", d.inc, b)
+				}
+				out.logTail = "---- read-only look at the node's raft directories ----\n" + diagnose(d) + head + out.logTail
+				out.raftFiles = map[string][]byte{}
+				total := 0
+				for _, sub := range []string{"wal-1", "snap-1"} {
+					dir := filepath.Join(d.root, "data", "default-0", sub)
+					ents, _ := os.ReadDir(dir)
+					for _, e := range ents {
+						if b, err := os.ReadFile(filepath.Join(dir, e.Name())); err == nil && total+len(b) < 4<<20 {
+							out.raftFiles[sub+"/"+e.Name()] = b
+							total += len(b)
+						}
+					}
+				}
 			}
 		}
 		d.remove()
@@ -774,6 +796,7 @@ func writeViolation(c *Case, o *outcome) string {
 	c.Observed = o.violation
 	c.Trace = o.trace
 	c.LogTail = o.logTail
+	c.RaftFiles = o.raftFiles
 	b, _ := json.MarshalIndent(c, "", " ")
 	wd, _ := os.Getwd()
 	fn := filepath.Join(wd, fmt.Sprintf("violation-C06-%016x.json", stats.HashString(c.canonical())))
